@@ -487,6 +487,13 @@ func (ex *Exec) frameObligations(fr *frame, fc *FuncContract, g string, s *State
 			newObjects = true
 			continue
 		}
+		if aks, ok := ex.allButKeys(it, env); ok {
+			for _, k := range aks {
+				allowed[k] = true
+				preciseAt[k] = append(preciseAt[k], "*")
+			}
+			continue
+		}
 		ks, pr := ex.modItem(it, env)
 		for i, k := range ks {
 			allowed[k] = true
@@ -688,6 +695,15 @@ func (u *Unit) slice(o *Obligation, loopLocal bool) []bool {
 				if rel[a] {
 					relevant = true
 					break
+				}
+			}
+			if !relevant {
+				// a fact about a relevant fresh scalar (a call result, a havoced cell) is relevant whatever arrays it reads
+				for _, sy := range f.syms {
+					if rel[sy] && u.U.consts[sy] && !isArr(sy) && !strings.HasPrefix(sy, "p$") && !strings.HasPrefix(sy, "next") && !strings.HasPrefix(sy, "str!") {
+						relevant = true
+						break
+					}
 				}
 			}
 			if relevant {
